@@ -78,6 +78,12 @@ CLAIMED.update({
              'observed through query_table, query_csv (whose writer enforces the width) and pandas.',
         note='Partial: how an item TEXT is classified into its kind is Python ast / the JS span parser — tied by the correspondence, not modelled. Hypothesis RectangularSources (records as wide as their headers).',
         ref='DESIGN.md section 7, C07'),
+    'C08': dict(
+        text='Tier 1: C08_literals_reassemble / C08_literals_roundtrip (literals cut out and put back verbatim for every query without the marker text; counterexample theorem for the marker); tier 2: C08_keyword_case (keyword location depends only on the '
+             'lower-cased text), blank/comment lines, indentation, trailing semicolons, join synonyms. The shallow parser functions (literal scanner = the real regex on ALL strings <= 8-10 over {quote,dquote,backslash,a}, cleanup, redundant table name, '
+             'separate_actions, join expression, whole pipeline) are tied to the Lean Parse model, and respelled queries (case, clause order, layout, synonyms, hostile literal contents) are run through the real engine against the model result of the abstract query.',
+        note='Partial: tier 3 (invariance under clause order) is NOT proved, only exercised by the correspondence; the scanners replacing the regular expressions are tied to Python re, not proved equal to it.',
+        ref='DESIGN.md section 7, C08'),
     'C09': dict(
         text='C09_escape_unescape: for EVERY column name and both quote characters the generated literal evaluates back to the name (Python literal evaluation modelled for exactly the escapes RBQL can produce, tied to ast.literal_eval); '
              'C09_binds_right_column for every set of distinct names; header-line theorems for the reader (Proofs/HeaderLine.lean when present). The real engine is checked directly: hostile headers x every position x '
